@@ -74,7 +74,7 @@ func c20FileRead(bs uint32, nExt int) {
 	holeInRange := hole != 0
 	vp.AllocCap(L + 2)
 	vp.Unwind(4)
-	vp.KnownPanic("KF-C20-2", "file.go:73")
+	vp.KnownPanic("KF-C20-2", "ext4.File).Read)") // make([]byte, toReadInOffset) with a negative length
 	vp.NoPanic()
 	n, err := fl.Read(p)
 	vp.AllowPanic()
